@@ -279,3 +279,21 @@ def is_int_numeral(ctx, s):
     if v is not None:
         return (not isinstance(v, SymNum)) and float(v).is_integer() or (isinstance(v, SymNum) and p_integral(v.p))
     return re.match(r"^\s*-?\d+\s*$", s if isinstance(s, str) else bytes(s).decode()) is not None
+
+
+def same_steps(ctx, A, B, tol=0):
+    """A and B ([(position, value)], concrete positions) denote the same step function from their first position on: equal
+    values at every breakpoint of either (redundant breakpoints are allowed)."""
+    A, B = sorted(A, key=lambda p: p[0]), sorted(B, key=lambda p: p[0])
+    if not A or not B or A[0][0] != B[0][0]:
+        return False
+
+    def at(L, x):
+        cur = L[0][1]
+        for p, v in L:
+            if p <= x:
+                cur = v
+        return cur
+
+    pts = sorted({p for p, _v in A} | {p for p, _v in B})
+    return ctx.all(*[ctx.within(at(A, x), at(B, x), tol, strict=False) if tol else ctx.eq(at(A, x), at(B, x)) for x in pts])
